@@ -28,7 +28,13 @@ func crossArch(meta *common.Meta, outDir string) int {
 		target = "amd64"
 	}
 	typs := []string{"[12]int", "struct { p *int; n int32 }", "[10]uintptr", "struct { a int64; b int32 }", "[6]string", "[5][]int",
-		"struct { e error; m map[string]int; c chan int }", "[9]int64", "struct { b bool; f float64; u uint }", "[3]struct { s string; i interface{} }"}
+		"struct { e error; m map[string]int; c chan int }", "[9]int64", "struct { b bool; f float64; u uint }", "[3]struct { s string; i interface{} }",
+		"struct { a int8; c complex128; b int16 }", "[2]struct { f func(); x int32; y float64 }"}
+	// the same types in the Coq model's vocabulary
+	coqTyps := []string{"TArray 12 TInt", "TStruct [TPointer; TInt32]", "TArray 10 TUintptr", "TStruct [TInt64; TInt32]", "TArray 6 TString", "TArray 5 TSlice",
+		"TStruct [TInterface; TMap; TChan]", "TArray 9 TInt64", "TStruct [TBool; TFloat64; TInt]", "TArray 3 (TStruct [TString; TInterface])",
+		"TStruct [TInt8; TComplex128; TInt16]", "TArray 2 (TStruct [TFunc; TInt32; TFloat64])"}
+	var caseLines, caseIdx []string
 	var b strings.Builder
 	b.WriteString("package xa\n\n")
 	for i, t := range typs {
@@ -90,6 +96,15 @@ func crossArch(meta *common.Meta, outDir string) int {
 				continue
 			}
 			seen++
+			{
+				idx, _ := strconv.Atoi(fn[1:])
+				archTerm := "i386"
+				if target == "amd64" {
+					archTerm = "amd64"
+				}
+				caseLines = append(caseLines, fmt.Sprintf("  (%s, %s, %d%%Z)", archTerm, coqTyps[idx], got))
+				caseIdx = append(caseIdx, fmt.Sprintf("GOARCH=%s %s: %s quoted as %d bytes", target, exe, typs[idx], got))
+			}
 			if got != want[fn] {
 				idx, _ := strconv.Atoi(fn[1:])
 				meta.Fail("C14/"+exe+"/quoted-size-is-not-the-target-platform's", fmt.Sprintf("GOARCH=%s %s %s: a parameter of type %s is quoted as %d bytes; its size on %s is %d (certified by compiling with GOARCH=%s)", target, exe, strings.Join(args, " "), typs[idx], got, target, want[fn], target),
@@ -100,5 +115,11 @@ func crossArch(meta *common.Meta, outDir string) int {
 			meta.TieBroken = append(meta.TieBroken, fmt.Sprintf("cross-arch: %s printed no hugeParam diagnostic: %s", exe, out))
 		}
 	}
+	common.WriteFile(filepath.Join(outDir, "cases_c14_xarch.v"), "From GC Require Import Base Model_Params.\nOpen Scope Z_scope.\n"+
+		"Definition case_ok (k : arch * gtype * Z) : bool := let '(a, t, q) := k in gsize a t =? q.\nDefinition cases : list (arch * gtype * Z) := [\n"+
+		strings.Join(caseLines, ";\n")+"\n].\nDefinition M := Eval vm_compute in mismatches case_ok cases.\nPrint M.\n")
+	common.WriteFile(filepath.Join(outDir, "cases_c14_xarch.index.txt"), strings.Join(caseIdx, "\n")+"\n")
+	meta.CaseFiles = append(meta.CaseFiles, "cases_c14_xarch.v")
+	meta.Distribution["cross_arch_cases"] = len(caseLines)
 	return runs
 }
